@@ -407,8 +407,44 @@ fn borrow_state<R: shred::Resource>(w: &World) -> u8 {
     }
 }
 
+type Meta = shred::MetaTable<dyn specs::storage::AnyStorage>;
+
+/// Holds every probed resource that `m` does not declare exclusively (and the declared reads
+/// shared), then fetches `m`: a handle that touches anything undeclared - even briefly - conflicts.
+fn fetch_while_rest_is_taken(m: Member, w: &World) -> Result<(), String> {
+    let reads = member_reads(m);
+    let writes = member_writes(m);
+    macro_rules! hold {
+        ($t:ty) => {{
+            let id = ResourceId::new::<$t>();
+            if writes.contains(&id) {
+                (None, None)
+            } else if reads.contains(&id) {
+                (Some(w.fetch::<$t>()), None)
+            } else {
+                (None, Some(w.fetch_mut::<$t>()))
+            }
+        }};
+    }
+    let _g0 = hold!(EntitiesRes);
+    let _g1 = hold!(LazyUpdate);
+    let _g2 = hold!(MaskedStorage<T0>);
+    let _g3 = hold!(MaskedStorage<T1>);
+    let _g4 = hold!(MaskedStorage<T2>);
+    let _g5 = hold!(MaskedStorage<T3>);
+    let _g6 = hold!(Meta);
+    match catch_unwind(AssertUnwindSafe(|| {
+        let f = fetch_member(m, w);
+        drop(f);
+    })) {
+        Ok(()) => Ok(()),
+        Err(e) => Err(crate::util::panic_message(&e)),
+    }
+}
+
 fn all_states(w: &World) -> Vec<(ResourceId, &'static str, u8)> {
     vec![
+        (ResourceId::new::<Meta>(), "the storage meta table", borrow_state::<Meta>(w)),
         (ResourceId::new::<EntitiesRes>(), "EntitiesRes", borrow_state::<EntitiesRes>(w)),
         (ResourceId::new::<LazyUpdate>(), "LazyUpdate", borrow_state::<LazyUpdate>(w)),
         (ResourceId::new::<MaskedStorage<T0>>(), "storage T0", borrow_state::<MaskedStorage<T0>>(w)),
@@ -457,8 +493,67 @@ fn check_declarations(members: &[Member], stats: &mut DStats) -> Option<Viol> {
             }
         }
         drop(f);
+        stats.borrow_probes += 1;
+        if let Err(msg) = fetch_while_rest_is_taken(m, &w) {
+            return Some(viol(
+                "declaration-vs-borrow",
+                format!(
+                    "{:?}: fetch() conflicts although every resource it does not declare is merely held by someone else (it touches an undeclared resource): {}",
+                    m, msg
+                ),
+            ));
+        }
+    }
+    // the same for a world whose storages were only made known by SystemData::setup
+    let mut w2 = World::new();
+    for &m in members {
+        setup_member(m, &mut w2);
+    }
+    for &m in members {
+        stats.borrow_probes += 1;
+        if let Err(msg) = fetch_while_rest_is_taken_setup_only(m, &w2) {
+            return Some(viol(
+                "declaration-vs-borrow",
+                format!(
+                    "{:?} in a world prepared by SystemData::setup only: fetch() conflicts although every resource it does not declare is merely held by someone else: {}",
+                    m, msg
+                ),
+            ));
+        }
     }
     None
+}
+
+/// as `fetch_while_rest_is_taken`, but only resources that exist in this world are held
+fn fetch_while_rest_is_taken_setup_only(m: Member, w: &World) -> Result<(), String> {
+    let reads = member_reads(m);
+    let writes = member_writes(m);
+    macro_rules! hold {
+        ($t:ty) => {{
+            let id = ResourceId::new::<$t>();
+            if writes.contains(&id) || !w.has_value::<$t>() {
+                (None, None)
+            } else if reads.contains(&id) {
+                (Some(w.fetch::<$t>()), None)
+            } else {
+                (None, Some(w.fetch_mut::<$t>()))
+            }
+        }};
+    }
+    let _g0 = hold!(EntitiesRes);
+    let _g1 = hold!(LazyUpdate);
+    let _g2 = hold!(MaskedStorage<T0>);
+    let _g3 = hold!(MaskedStorage<T1>);
+    let _g4 = hold!(MaskedStorage<T2>);
+    let _g5 = hold!(MaskedStorage<T3>);
+    let _g6 = hold!(Meta);
+    match catch_unwind(AssertUnwindSafe(|| {
+        let f = fetch_member(m, w);
+        drop(f);
+    })) {
+        Ok(()) => Ok(()),
+        Err(e) => Err(crate::util::panic_message(&e)),
+    }
 }
 
 fn parse_plan(txt: &str) -> Vec<Vec<Vec<usize>>> {
@@ -492,6 +587,7 @@ fn conflicts(a: &SysSpec, b: &SysSpec) -> bool {
 }
 
 pub fn run_case(c: &DCase) -> DOut {
+    crate::util::probe_mark(&["C11"]);
     let mut stats = DStats::default();
     let mut th = TraceHash::default();
     let mut recorded_out = vec![];
